@@ -510,7 +510,13 @@ Definition group_list (s : rsec) (ty : N) : list (fres (name * region)) :=
 
 (* group.rs:132 write into an append-all sink.  [lookup id] = the image bytes if image(id) is Ok.
    Result: the bytes written and whether Ok(()) was returned (after the F26 repair an offset beyond
-   u32 is an InvalidData error; before it was an arithmetic overflow panic). *)
+   u32 is an InvalidData error; before it was an arithmetic overflow panic).
+   After the F44 repair a cursor group (idType = 2) is translated instead of copied: its entries are
+   { wWidth, wHeight (twice the height), wPlanes, wBitCount, dwBytesInRes, nId } and every RT_CURSOR resource starts
+   with the 4-byte hotspot, while the entry of a .cur file is { bWidth, bHeight, bColorCount, bReserved, wXHotspot,
+   wYHotspot, dwBytesInRes, dwImageOffset } and its image data does not contain the hotspot.  A cursor entry whose
+   resource is missing or shorter than 4 bytes, or whose dwBytesInRes is below 4, is an InvalidData error.
+   [write_with_orig] is the code as it stood before both repairs: the icon layout for both types. *)
 Section Write.
   Variable s : rsec.
   Variable lookup : N -> option (list N).
@@ -537,10 +543,36 @@ Section Write.
     | [] => []
     | e :: r => match lookup (ge_id s e) with Some bs => bs ++ write_images r | None => write_images r end
     end.
+  (* the cursor branch of the first loop: bWidth is the low byte of wWidth (left in place), bHeight = (wHeight / 2) as u8,
+     bColorCount = bReserved = 0, the hotspot = the first 4 bytes of the resource, dwBytesInRes - 4 *)
+  Fixpoint write_cur_entries (es : list N) (image_offset : N) : list N * bool :=
+    match es with
+    | [] => ([], true)
+    | e :: r =>
+      match lookup (ge_id s e) with
+      | Some bs =>
+        if (4 <=? lenN bs) && (4 <=? ge_bytes_in_res s e) then
+          let size := ge_bytes_in_res s e - 4 in
+          let next := image_offset + size in
+          if next <? W32 then
+            let rest := write_cur_entries r next in
+            ([rs_get s e; (rd16 s (e + 2) / 2) mod 256; 0; 0] ++ firstn 4 bs ++ le32 size ++ le32 image_offset ++ fst rest, snd rest)
+          else ([], false)
+        else ([], false)
+      | None => ([], false)
+      end
+    end.
+  (* the cursor branch of the second loop: bytes.get(4..).unwrap_or(&[]) *)
+  Fixpoint write_cur_images (es : list N) : list N :=
+    match es with
+    | [] => []
+    | e :: r => match lookup (ge_id s e) with Some bs => skipn 4 bs ++ write_cur_images r | None => write_cur_images r end
+    end.
   Definition write_with (g : region) : list N * bool :=
     let es := g_entries s g in
-    let ent := write_entries es (6 + lenN es * 16) in
-    if snd ent then (sec_bytes s (r_off g) 6 ++ fst ent ++ write_images es, true)
+    let cursor := g_type s g =? 2 in
+    let ent := if cursor then write_cur_entries es (6 + lenN es * 16) else write_entries es (6 + lenN es * 16) in
+    if snd ent then (sec_bytes s (r_off g) 6 ++ fst ent ++ (if cursor then write_cur_images es else write_images es), true)
     else (sec_bytes s (r_off g) 6 ++ fst ent, false).
   Definition write_with_orig (g : region) : res (list N) :=
     let es := g_entries s g in
